@@ -53,6 +53,8 @@ class ScriptedSocket(socket.socket):
         self._log = log
 
     def recv(self, n, flags=0):
+        if not isinstance(n, int) or n < 0:
+            raise ValueError("negative buffersize in recv")          # as a real socket does
         rem = len(self._data) - self._off
         g = 0
         if rem > 0:
